@@ -94,7 +94,8 @@ class CallMixin:
             if isinstance(recv, SDec) and node.func.attr in (getattr(self.d.contract, 'method_results', None) or {}):
                 # pure method of a Decimal with a declared result shape (as_tuple): one symbolic result per receiver term
                 f = SBuiltin('dynmeth!' + node.func.attr, recv)
-            elif isinstance(recv, SDyn) and not recv.callable and node.func.attr in PURE_DYN_METHODS_:
+            elif isinstance(recv, SDyn) and not recv.callable and (node.func.attr in PURE_DYN_METHODS_
+                                                                    or node.func.attr in (getattr(self.d.contract, 'method_results', None) or {})):
                 ln = getattr(node, 'lineno', None)
                 if not self.specmode and not isinstance(recv.shape, (S.Rec, S.Opaque)) and not self.d.contract_assumes('METHODS_PRESENT'):
                     if self.branch(Val.is_VNone(recv.t)):
